@@ -20,6 +20,12 @@ add("C10", "jaxpr2smt",
     "floats as reals; representation invariant of the extended window; sender regularity (<= ext unarrived entries) for the passing obligation; z3 trusted; jaxpr taken as the meaning of the JAX code",
     "DESIGN.md §6 C10")
 
+add("C09", "jaxpr2smt",
+    "bounded symbolic execution: jaxprs of the live Graph.run/reset/step/rollout/init compositions interpreted on one fully symbolic GraphState (incl. schedule arrays) over z3 terms; z3 decides leaf-wise equality / clipping laws; counterexamples replayed on the real eager+jit functions",
+    "For every GraphState of the enumerated tiny compiled instances (all three supergraph modes) the API compositions run^n;run_until_supervisor, reset;step^n, rollout (carry/full), jit and vmap variants and the overridden step yield identical states; eps/step indices clip for every int; init hands over params/clipped indices. Bounded: n<=2(3) steps, batch 2, instances enumerated.",
+    "floats as reals (float32 rounding outside), ints unbounded; probe nodes with arithmetic step functions; jaxpr taken as the meaning of jitted code (XLA not examined); instance family enumerated, not quantified",
+    "DESIGN.md §6 C09")
+
 def main():
     checks = []
     for pid in sorted(CHECKS):
